@@ -18,6 +18,7 @@ def opsF : Ops Float where
   powHalf := fun x => Float.pow x 0.5
   sq := fun x => Float.pow x 2.0
   pi := 3.141592653589793
+  ltInf := fun x => x < (1.0 / 0.0)
 
 /-- `circle_circle_intersection_area` at `Float` (driver-local instantiation of the opaque parameter). -/
 def discF (c1 : Float × Float) (r1 : Float) (c2 : Float × Float) (r2 : Float) : Float :=
@@ -79,9 +80,9 @@ def showCentres (inst : Inst α Unit) : String :=
 def showExc {β : Type} (f : β → String) : Except Err β → String
   | .ok x => f x
   | .error e => e.toStr
-def showOpt {β : Type} (f : β → String) : Option β → String
-  | some x => f x
-  | none => "err:AssertionError"
+def showF {β : Type} (f : β → String) : Except FErr β → String
+  | .ok x => f x
+  | .error e => e.toStr
 def showSRects (rs : List (SRect α)) : String :=
   s!"{rs.length}" ++ String.join (rs.map fun r => s!" {sc r.cx} {sc r.cy} {sc r.w} {sc r.h}")
 def showSMod (m : SMod α Unit) : String :=
@@ -95,8 +96,9 @@ def placeOpGen (op : String) (args : List String) : Option String :=
   match op with
   | "clamp" => (runP (do let lo ← pSc (α := α); let hi ← pSc; let x ← pSc; pure (lo, hi, x)) args).map
       fun (lo, hi, x) => sc (clamp lo hi x)
-  | "argmin" => (runP (pVec (α := α)) args).map fun cs =>
-      match argminFirst ((List.range cs.length).zip cs) with | some b => s!"{b.1}" | none => "none"
+  | "argmin" => (runP (do let inf ← pSc (α := α); let cs ← pVec; pure (inf, cs)) args).map fun (inf, cs) =>
+      match argminFrom (fun x => decide (x < inf)) ((List.range cs.length).zip cs) none with
+      | some b => s!"{b.1}" | none => "none"
   | "normalize" => (runP (do let x ← pVec (α := α); let s ← pVec; let f ← pBools; pure (x, s, f)) args).map
       fun (x, s, f) => showExc showVec (normalize x s f)
   | "ortho" => (runP (do let c ← pList (pVec (α := α)); let m ← pVec; let d ← pNat; let f ← pBools; pure (c, m, d, f)) args).map
@@ -119,14 +121,16 @@ def placeOpGen (op : String) (args : List String) : Option String :=
 def placeOpNum (o : Ops α) (disc : Pt α → α → Pt α → α → α) (op : String) (args : List String) : Option String :=
   match op with
   | "layout" => (runP (do let kp ← pSc (α := α); let it ← pNat; let i ← pInst; pure (kp, it, i)) args).map
-      fun (kp, it, i) => showCentres (frLayout o i kp it)
-  | "wl" => (runP (pInst (α := α)) args).map fun i => showOpt sc (wireLength o i)
-  | "tia" => (runP (pInst (α := α)) args).map fun i => showOpt sc (totalIntersectionArea o disc i)
-  | "cost" => (runP (pInst (α := α)) args).map fun i => showOpt sc (cost o disc i)
+      fun (kp, it, i) => showF showCentres (frLayout o i kp it)
+  | "wl" => (runP (pInst (α := α)) args).map fun i => showF sc (wireLength o i)
+  | "tia" => (runP (pInst (α := α)) args).map fun i => showF sc (totalIntersectionArea o disc i)
+  | "cost" => (runP (pInst (α := α)) args).map fun i => showF sc (cost o disc i)
   | "force" => (runP (do let it ← pNat; let i ← pInst (α := α); pure (it, i)) args).map fun (it, i) =>
-      match bestKappa o disc i kappas it with
-      | some b => s!"{sc b.1} {sc b.2} {showCentres (frLayout o i b.1 it)}"
-      | none => "err:AssertionError"
+      match bestKappa o disc i kappas it, forceAlgorithm o disc i it with
+      | .ok (some b), .ok out => s!"{sc b.1} {sc b.2} {showCentres out}"
+      | .ok none, .ok out => s!"none none {showCentres out}"
+      | .error e, _ => e.toStr
+      | _, .error e => e.toStr
   | "sld" => (runP (do
         let a ← pAdj (α := α); let m ← pVec; let W ← pSc; let H ← pSc; let i0 ← pVec; let i1 ← pVec
         let f ← pBools; let dr ← pVec; let mi ← pNat; pure (a, m, W, H, i0, i1, f, dr, mi)) args).map
